@@ -411,6 +411,9 @@ class _ReplLockManagerImpl(SyncObjConsumer):
                 existingLock = None
         # Acquire lock if possible
         if existingLock is None or existingLock[0] == clientID:
+            if existingLock is not None:
+                # A request that was delayed on its way must not move the time of the lock backwards
+                currentTime = max(currentTime, existingLock[1])
             self.__locks[lockID] = (clientID, currentTime)
             return True
         # Lock already acquired by someone else
@@ -426,7 +429,8 @@ class _ReplLockManagerImpl(SyncObjConsumer):
                 continue
 
             if lockClientID == clientID:
-                self.__locks[lockID] = (clientID, currentTime)
+                # (a prolongation that was delayed on its way must not move the time backwards)
+                self.__locks[lockID] = (clientID, max(lockTime, currentTime))
 
     @replicated
     def release(self, lockID, clientID):
